@@ -124,6 +124,19 @@ theorem updateLoop_eq (st : Words8) (buf data : List UInt8) (hb : buf.length < 6
     show (List.foldl transform st (parse (buf ++ List.take space data)), tail (buf ++ List.take space data)) = _
     rw [h1]
 
+/-! (T) obligations on the integer widths read from the source: `bit_len_` and the cast of
+`data.size()` are 64-bit, so truncating to them is the identity on the model's `UInt64`.  With a
+narrower `bit_len_` (say 32 bits: length field wrong from 2^29 bytes on) `gen_bitLenBits` and with it
+`absorbed_update`, `sha_streaming`, `bit_len_exact`, `hmac`, `verify` no longer check. -/
+theorem gen_bitLenBits : Gen.C08.bitLenBits = 64 := rfl
+theorem gen_bitLenCastBits : Gen.C08.bitLenCastBits = 64 := rfl
+theorem gen_bufferSizeBits : 64 < 2 ^ Gen.C08.bufferSizeBits := by decide
+
+theorem wrapBits_64 (x : UInt64) : wrapBits 64 x = x := by
+  unfold wrapBits
+  rw [Nat.mod_eq_of_lt x.toNat_lt]
+  exact UInt64.ofNat_toNat
+
 /-- what the hasher object holds after absorbing the message `m` (in whatever pieces) -/
 structure Absorbed (s : State) (m : List UInt8) : Prop where
   st : s.st = (parse m).foldl transform (Words8.ofList Gen.C08.initState)
@@ -146,7 +159,9 @@ theorem absorbed_update (s : State) (m d : List UInt8) (h : Absorbed s m) : Abso
       rw [h.buf, parse_append m d, List.foldl_append, ← h.st]
     · show tail (s.buf ++ d) = _
       rw [h.buf, tail_append m d]
-    · show s.bitLen + UInt64.ofNat d.length * UInt64.ofNat Gen.C08.bitsPerByte = _
+    · show wrapBits Gen.C08.bitLenBits
+        (s.bitLen + wrapBits Gen.C08.bitLenCastBits (UInt64.ofNat d.length) * UInt64.ofNat Gen.C08.bitsPerByte) = _
+      rw [gen_bitLenBits, gen_bitLenCastBits, wrapBits_64, wrapBits_64]
       rw [h.bitLen, gen_bitsPerByte, ← UInt64.ofNat_mul, ← UInt64.ofNat_add, List.length_append]
       congr 1; omega
 
